@@ -3,7 +3,7 @@
 # (never to /repo itself), the check of the property it breaks runs against that copy, the copy is removed.
 # usage: tools/rerun_seeded.sh [parallel=6] [name-filter]
 par=${1:-6}; filt=${2:-}
-cd /verif
+cd "$(dirname "$0")/.."; VROOT=$(pwd); export VROOT
 scratch=$(mktemp -d /tmp/spverif-seeded.XXXXXX)
 one() {
   d=$1; scratch=$2
@@ -12,7 +12,7 @@ one() {
   extra=$(python3 -c "import json,sys; print(' '.join(json.load(open('$d/meta.json')).get('caught_by', [])))")
   wt=$scratch/$name
   mkdir -p $wt && (cd /repo && git ls-files -z | xargs -0 cp --parents -t $wt) || { echo "$name copy-failed"; return; }
-  (cd $wt && git init -q . && git apply $OLDPWD/$d/patch.diff) 2>/dev/null || (cd $wt && patch -p1 -s < /verif/$d/patch.diff) || { echo "$name patch-failed"; rm -rf $wt; return; }
+  (cd $wt && git init -q . && git apply $OLDPWD/$d/patch.diff) 2>/dev/null || (cd $wt && patch -p1 -s < $VROOT/$d/patch.diff) || { echo "$name patch-failed"; rm -rf $wt; return; }
   res=""
   for p in $prop $extra; do
     out=$(SWEETPEA_REPO=$wt timeout 1500 ./check $p 2>&1 | grep -E "^(OK|VIOLATION|INFRA)" | tail -1 | cut -c1-160)
